@@ -1,0 +1,23 @@
+//go:build verif
+
+package factory
+
+import (
+	"context"
+
+	"github.com/alphadose/haxmap"
+	"github.com/projecteru2/core/engine"
+	"github.com/projecteru2/core/types"
+)
+
+// RegisterEngineForVerif registers an engine constructor under an endpoint prefix
+// (verification harness only).
+func RegisterEngineForVerif(prefix string, f func(ctx context.Context, config types.Config, nodename, endpoint, ca, cert, key string) (engine.API, error)) {
+	engines[prefix] = f
+}
+
+// ResetEngineCacheForVerif installs a fresh engine cache without the background checker
+// goroutines and without a pool (verification harness only).
+func ResetEngineCacheForVerif(config types.Config) {
+	engineCache = &EngineCache{cache: haxmap.New[string, engine.API](), config: config}
+}
